@@ -19,7 +19,9 @@ use std::io::{Cursor, Read, Seek, SeekFrom};
 
 pub const CHECK: Check = Check { id: "C11", level: "exploration", flavours: &["scaled", "prod"], run, replay };
 
-const RULE: &str = "cases = (plaintext length L, layer stack in {raw, encrypt, compress, compress+encrypt}, history of \
+const RULE: &str = "cases = (plaintext length L - incl. every length up to 3 blocks + 1 chunk on the scaled constants, lengths \
+around multiples of the chunk and block size, and long streams of 250..300 chunks (both flavours) and about 65536 chunks \
+(scaled) so that chunk indices beyond one and two bytes are reached -, layer stack in {raw, encrypt, compress, compress+encrypt}, history of \
 Seek(Start|Current|End)/stream_position/read ops with every target in [0, L]); the layer stream is produced by the \
 independent encoder (refimpl) behind a real header, the readers are stacked exactly as `mlar info` stacks them; oracle = \
 io::Cursor over the plaintext (same returned positions, same bytes, EOF at the same place, no premature Ok(0)). \
@@ -255,6 +257,11 @@ pub fn oracle(c: &Case, st: &mut Stats) -> Result<(), String> {
     if l < 16 {
         st.label("L<16");
     }
+    if l > 65_536 * CHUNK {
+        st.label("L>65536 chunks");
+    } else if l > 256 * CHUNK {
+        st.label("L>256 chunks");
+    }
     if nontrivial(c) {
         st.nontrivial(util::hash64(format!("{}|{}|{:?}", c.len, c.layers & 3, c.ops).as_bytes()));
     }
@@ -339,9 +346,12 @@ fn length() -> BoxedStrategy<u32> {
             .prop_map(move |(k, d)| (k as i64 * b as i64 + d as i64).max(0) as u32)
     };
     if SCALED {
-        prop_oneof![6 => 0u32..=(3 * BLOCK + CHUNK) as u32, 2 => near(CHUNK, 13), 2 => near(BLOCK, 3), 1 => 0u32..40].boxed()
+        // long streams: positions whose chunk index needs the second (>= 256) and third (>= 65536) counter byte
+        let c = CHUNK as u32;
+        prop_oneof![1200 => 0u32..=(3 * BLOCK + CHUNK) as u32, 400 => near(CHUNK, 13), 400 => near(BLOCK, 3), 200 => 0u32..40, 60 => 250 * c..300 * c, 1 => 65_530 * c..65_545 * c].boxed()
     } else {
-        prop_oneof![3 => 0u32..40, 4 => near(CHUNK, 3), 1 => near(BLOCK, 2), 2 => 40u32..400_000].boxed()
+        let c = CHUNK as u32;
+        prop_oneof![60 => 0u32..40, 80 => near(CHUNK, 3), 20 => near(BLOCK, 2), 40 => 40u32..400_000, 3 => 255 * c..258 * c].boxed()
     }
 }
 
@@ -354,7 +364,11 @@ fn case() -> impl Strategy<Value = Case> {
         any::<u16>(),
         prop::collection::vec(op(), 1..14),
     )
-        .prop_map(|(len, layers, nrecip, class, seed, ops)| Case { len, layers, nrecip, class, seed, ops })
+        .prop_map(|(len, layers, nrecip, class, seed, ops)| {
+            // long streams under the compression layer: compressible content keeps the encoder fast
+            let class = if len as usize > 200 * CHUNK && layers & 2 != 0 { DataClass::Zeros } else { class };
+            Case { len, layers, nrecip, class, seed, ops }
+        })
 }
 
 fn run(ctx: &Ctx) -> Report {
